@@ -13,6 +13,10 @@ Streams (S3, model vs implementation)
   spec-bytes         Lean `Spec.encodeMsg` against the independent Python reference serializer
                      (harness/c03_ref.py), both byte orders, shuffled fields, unknown field codes
   parse-foreign      parseMessage(reference bytes) against the model
+  parse-foreign-containers  the same with unknown header fields whose variants hold containers (arrays, structs,
+                     dicts, variants): outside the header fragment that the theorems cover - the driver decodes the
+                     header with the general code model of the wire codec (Wire/Code.lean) and runs the same
+                     `parseAfterHeader` on it
   parse-wrongtype    reference bytes in which known header fields carry a variant of another basic type
                      (a signature sent as STRING of 300 characters or as UINT32, a path as STRING, ...), unknown
                      message types, truncated messages: outside the statement (no oracle), model vs implementation only
@@ -40,8 +44,8 @@ try:                                    # the shared type-directed generator of 
 except Exception:                       # pragma: no cover - the local generator below is always available
     gv = None
 
-STREAMS = ['build', 'construct-malformed', 'parse-own', 'spec-bytes', 'parse-foreign', 'parse-wrongtype',
-           'fragment-vs-general']
+STREAMS = ['build', 'construct-malformed', 'parse-own', 'spec-bytes', 'parse-foreign', 'parse-foreign-containers',
+           'parse-wrongtype', 'fragment-vs-general']
 THEOREMS = ['marshal_wellformed', 'serial_fresh', 'parse_marshal', 'parse_foreign', 'cannot_construct']
 TRUSTED_BASE = [
     'message body bytes: the model takes the bytes marshal.marshal produced as an input (opaque body codec; '
@@ -1060,8 +1064,8 @@ def run_foreign_cases(ctx, message, cases):
                 ctx.disagree('spec-bytes', foreign_input(x, big, serial, fields), out[j], hexs(enc[i][0]),
                              detail='Lean Spec.encodeMsg vs the Python reference serializer')
     # parse-foreign
-    pout = ctx.model([parse_line(enc[i][0], enc[i][1]) for i in idx])
-    pos = {i: j for j, i in enumerate(idx)}
+    pout = ctx.model([parse_line(e[0], e[1]) for e in enc])
+    pos = {i: i for i in range(len(cases))}
     for i, (x, big, serial, fields, basic) in enumerate(cases):
         raw, fds, flags, _ = enc[i]
         inp = foreign_input(x, big, serial, fields)
@@ -1078,7 +1082,9 @@ def run_foreign_cases(ctx, message, cases):
         if pout is not None and i in pos:
             mv = view_from_model(pout[pos[i]])
             if mv != v:
-                ctx.disagree('parse-foreign', inp, mv, v)
+                ctx.disagree(stream, inp, mv, v)
+            if not basic:
+                ctx.stat('foreign-containers:' + ('via-general-model' if 'via=general' in pout[pos[i]] else 'fragment'))
             gen_bit(ctx, pout[pos[i]], inp)
         if not v['ok']:
             ctx.violation('parse-foreign-raises', 'parseMessage raises %s on a spec-conformant %s-endian message'
@@ -1312,7 +1318,7 @@ def run(ctx):
             replay_case(ctx, marshal, message, data['input'] if 'input' in data else data)
             ctx.stat('corpus')
         rng = ctx.rng
-        n = ctx.scale(quick=3000, thorough=40000)
+        n = ctx.scale(quick=3000, thorough=100000)
         cases = [g_case(rng, marshal) for _ in range(n)]
         built = run_build_stream(ctx, marshal, message, 'build', cases)
         for x, obs, m, oob in built:
@@ -1321,10 +1327,10 @@ def run(ctx):
             if obs['ok']:
                 ctx.stat('build:len=%s' % ('<64' if len(m.rawMessage) < 64 else '<256' if len(m.rawMessage) < 256 else '>=256'))
         run_parse_own(ctx, message, built)
-        mal = run_malformed(ctx, marshal, message, ctx.scale(quick=1500, thorough=20000))
+        mal = run_malformed(ctx, marshal, message, ctx.scale(quick=1500, thorough=50000))
         run_parse_own(ctx, message, mal)
-        run_foreign(ctx, marshal, message, ctx.scale(quick=2000, thorough=30000))
-        run_wrongtype(ctx, marshal, message, ctx.scale(quick=1200, thorough=15000))
+        run_foreign(ctx, marshal, message, ctx.scale(quick=2000, thorough=70000))
+        run_wrongtype(ctx, marshal, message, ctx.scale(quick=1200, thorough=40000))
         for _ in range(ctx.scale(quick=6, thorough=40)):
             run_serial_sequence(ctx, marshal, message, 150)
         if ctx.tier == 'thorough' and not ctx.widen:
